@@ -257,7 +257,8 @@ inductive Cond where
 
 /-- Value handed to `Where` (the `interface{}` argument) by Go type. -/
 inductive Arg where
-  | int (i : Int)          -- any of the accepted integer types, converted to int64
+  | int (i : Int)          -- any of the accepted signed integer types (and uint8/16/32), as int64
+  | uint (n : Nat)         -- Go `uint` (64 bit): `int64(v)` wraps for an int operator, `float64(v)` does not
   | float (t : Tok)        -- float32/float64, by its `%g` text
   | bool (b : Bool)
   | str (s : Tok)
@@ -273,6 +274,7 @@ def mkWhere (O : Oracle) (key : Tok) (op : Nat) (a : Arg) : Cond :=
   | some .int =>
     match a with
     | .int i => .leaf key op (.int i)
+    | .uint n => .leaf key op (.int (toInt64 n))
     | .str s => match parseInt s with
       | some i => .leaf key op (.int i)
       | none => .bad .chkInt
@@ -280,6 +282,9 @@ def mkWhere (O : Oracle) (key : Tok) (op : Nat) (a : Arg) : Cond :=
   | some .float =>
     match a with
     | .int i => match O.fcanon (showInt i) with
+      | some t => .leaf key op (.float t)
+      | none => .bad .chkFloat
+    | .uint n => match O.fcanon (showNat n) with
       | some t => .leaf key op (.float t)
       | none => .bad .chkFloat
     | .float t => .leaf key op (.float t)
